@@ -189,10 +189,11 @@ def macro_body(draw, params, lower, use_yield):
             same = [pn for gk, pn in params if gk == lgk]
             if same and draw(st.integers(0, 2)) != 0:
                 pn = draw(st.sampled_from(same))
+                compound = draw(st.integers(0, 2)) == 0      # the parameter is only a part of the argument handed on
                 if lgk == "match":
-                    args.append(("m", ("arg", pn)))
+                    args.append(("m", ("cat", (("arg", pn), ("lit", b"x", "str"))) if compound else ("arg", pn)))
                 elif lgk == "expr":
-                    args.append(("e", ("arg", pn)))
+                    args.append(("e", ("bin", "+", ("arg", pn), ("num", 1, "dec")) if compound else ("arg", pn)))
                 else:
                     args.append(("id", pn))
             else:
@@ -270,6 +271,11 @@ def macro_program(draw):
             args.append(a)
         if ok:
             calls.append(("call", name, tuple(args)))
+            if params and draw(st.integers(0, 2)) == 0:
+                # a second expansion of the same macro with (mostly) different arguments
+                args2 = [draw(concrete_arg(gk, {n: p for n, p, _ in order if n != name and n < name}, use_yield)) for gk, pn in params]
+                if all(a is not None for a in args2):
+                    calls.append(("call", name, tuple(args2)))
     if not calls:
         calls = [("match", ("lit", b"a", "str"))]
     needs_loop = any(gk == "loop" for name, params, _ in order for gk, _ in params)
